@@ -292,12 +292,19 @@ class Instance(object):
         self.line = line
 
 
+def _own_nodes_block(stmts):
+    for st in stmts:
+        for n in _own_nodes(st):
+            yield n
+
+
 def implicit_exception(src, fname, decisions, args):
     """Second run of the same call (same decisions) under sys.settrace: name of the first exception raised inside
     the function or a function nested in it that is not one of the generator's explicit E0..E3, else None."""
     import sys
     world = pyrt.World(decisions)
     glb = world.globals()
+    glb.setdefault('GV', 0)      # module-level variable for programs that declare `global GV`
     exec(compile(src, '<flow>', 'exec'), glb)
     f = glb[fname]
     args = tuple(args)[:f.__code__.co_argcount]
@@ -336,6 +343,7 @@ class Dyn(object):
         sk = fi.sk
         world = pyrt.World(decisions)
         glb = world.globals()
+        glb.setdefault('GV', 0)      # module-level variable for programs that declare `global GV`
         exec(compile(src, '<flow>', 'exec'), glb)
         f = glb[fi.fn.name]
         self.f = f
@@ -351,6 +359,9 @@ class Dyn(object):
         fname = f.__code__.co_name
         own = set(f.__code__.co_varnames) | set(f.__code__.co_cellvars)
         self.locals = own
+        # names the function itself declares global: their reads / writes by the function's own code are judged by
+        # the reaching-definitions oracle (they have definitions in the function's graph), not by the liveness one
+        self.declared_globals = set(n for st in _own_nodes_block(fi.fn.body) if isinstance(st, ast.Global) for n in st.names)
         nested = {}       # code name -> [(set of lines, code)]: a local function may be re-defined under the same name
         self.depth = {}   # id(code) -> nesting depth below the function (1 = defined directly in it)
         todo = [(f.__code__, 0)]
@@ -415,6 +426,9 @@ class Dyn(object):
                     cur = Instance(0, len(ev), e[2])      # gap: a line that is no CFG node (try / except / with exit)
                     inst.append(cur)
                     ev.append(('gap', e[2], None, e[2]))
+                continue
+            if e[0] in ('GR', 'GW') and e[1] == fname and e[3] in self.declared_globals:
+                ev.append(('R' if e[0] == 'GR' else 'W', e[3], None, e[2]))
                 continue
             if e[0] in ('R', 'W', 'D'):
                 if e[1] == fname:
@@ -497,6 +511,9 @@ def liveness_failures(an, fi, dyn):
     live_at[n] = {}
     for p in range(n - 1, -1, -1):
         e = ev[p]
+        if e[0] in ('R', 'W', 'D') and e[1] in dyn.declared_globals:
+            live_at[p] = live
+            continue
         if e[0] == 'R':
             live = dict(live)
             live[e[1]] = p
@@ -812,6 +829,25 @@ class EscapeGen(_progs.Gen):
         rd = ([v for v in sorted(plain) if r.random() < 0.5][:2] or sorted(plain)[:1]) if captures else []
         need |= set(rd)
         args = ''.join(', ' + v for v in rd)
+        shadow = [v for v in rd if v in self.vars]
+        if shadow and r.random() < 0.4:
+            # an inner lambda / def of this local function has a parameter named like a variable this function
+            # reads from the enclosing function (the parameter is a different variable), at one or two levels
+            v = r.choice(shadow)
+            kind = r.random()
+            if kind < 0.4:
+                self.emit(ind + 1, 'k%d = lambda %s: T(%d, %s)' % (self.key(), v, self.key(), v))
+            elif kind < 0.7:
+                nm = 'k%d' % self.key()
+                self.emit(ind + 1, 'def %s(%s):' % (nm, v))
+                self.emit(ind + 2, 'return T(%d, %s)' % (self.key(), v))
+                if r.random() < 0.5:
+                    self.emit(ind + 1, '%s(T(%d))' % (nm, self.key()))
+            else:
+                nm = 'k%d' % self.key()
+                self.emit(ind + 1, 'def %s(p):' % nm)
+                self.emit(ind + 2, 'k%d = lambda %s, q=0: T(%d, %s, p)' % (self.key(), v, self.key(), v))
+                self.emit(ind + 2, 'return T(%d, p)' % self.key())
         if nl and r.random() < 0.6:
             rd = sorted(set(rd) | set(nl))          # the value the function left in the variable is read through it
             need |= set(nl)
@@ -1077,6 +1113,80 @@ def gen_try_else_finally_function(rnd):
     elif tail < 0.6:
         L.append('    while D(%d):' % key())
         L.append('        %s = T(%d, %s)' % (v, key(), v))
+    L.append('    return T(%d, %s, %s)' % (key(), v, u))
+    return '\n'.join(L) + '\n'
+
+
+def gen_global_in_loop_function(rnd):
+    """`global GV` declared inside a loop body (or a branch in it), read after the declaration, assigned later in
+    the loop body a few `if` levels down, followed by a join and more statements: on later iterations the read
+    gets the in-loop assignment"""
+    k = [0]
+
+    def key():
+        k[0] += 1
+        return k[0]
+    L = ['def f(a, b, c):']
+    v = rnd.choice(_progs.VARS)
+    if rnd.random() < 0.5:
+        L.append('    %s = T(%d)' % (v, key()))
+    L.append('    while D(%d):' % key() if rnd.random() < 0.7 else '    for i%d in L(%d):' % (key(), key()))
+    ind = 2
+    if rnd.random() < 0.25:
+        L.append('        if D(%d):' % key())
+        ind = 3
+    p = '    ' * ind
+    L.append(p + 'global GV')
+    for _ in range(rnd.randint(0, 1)):
+        L.append(p + 'T(%d)' % key())
+    L.append(p + '%s = T(%d, GV)' % (v, key()))
+    depth = rnd.choice([1, 2, 2, 3])
+    q = p
+    for _ in range(depth):
+        L.append(q + 'if D(%d):' % key())
+        q += '    '
+    L.append(q + 'GV = T(%d)' % key())
+    if rnd.random() < 0.4:
+        L.append(q + 'T(%d, GV)' % key())
+    for _ in range(rnd.randint(0, 2)):
+        L.append(p + '%s = T(%d)' % (rnd.choice(_progs.VARS), key()))
+    if rnd.random() < 0.5:
+        L.append('    if D(%d):' % key())
+        L.append('        GV = T(%d, GV)' % key())
+    L.append('    return T(%d, GV)' % key())
+    return '\n'.join(L) + '\n'
+
+
+def gen_two_raises_function(rnd):
+    """two or more explicit raises guarded by the same handler, reached with different variable states (a variable
+    assigned between them / raises in both branches of an if); the handler and what follows read those variables"""
+    k = [0]
+
+    def key():
+        k[0] += 1
+        return k[0]
+    v, u, w = rnd.sample(_progs.VARS, 3)
+    exc = rnd.choice(['E0', 'E1', 'E2'])
+    L = ['def f(a, b, c):', '    %s = T(%d)' % (v, key()), '    %s = T(%d)' % (u, key()), '    try:']
+    if rnd.random() < 0.5:
+        L += ['        if D(%d):' % key(), '            raise %s()' % exc,
+              '        %s = T(%d)' % (v, key())]
+        if rnd.random() < 0.5:
+            L.append('        %s = T(%d)' % (w, key()))
+        L += ['        if D(%d):' % key(), '            raise %s()' % exc]
+        if rnd.random() < 0.5:
+            L.append('        %s = T(%d, %s)' % (v, key(), v))
+    else:
+        L += ['        if D(%d):' % key(), '            %s = T(%d)' % (v, key()), '            raise %s()' % exc,
+              '        else:', '            %s = T(%d)' % (rnd.choice([v, w]), key())]
+        L += ['            raise %s()' % exc] if rnd.random() < 0.6 else ['            %s = T(%d)' % (u, key()),
+                                                                       '        raise %s()' % exc]
+    L.append('    except %s:' % exc)
+    L.append('        %s = T(%d, %s)' % (u, key(), v))
+    if rnd.random() < 0.6:
+        L += ['        if D(%d):' % key(), '            %s = T(%d)' % (w, key())]
+    if rnd.random() < 0.5:
+        L += ['    while D(%d):' % key(), '        %s = T(%d, %s)' % (u, key(), v)]
     L.append('    return T(%d, %s, %s)' % (key(), v, u))
     return '\n'.join(L) + '\n'
 
@@ -1420,7 +1530,11 @@ def program_stream(rnd, it):
         return 'lambda', gen_escape_function(rnd, _progs.Opts(reads='safe', max_stmts=16, max_depth=2, raise_=False, try_=False, with_=False),
                                              lambdas=True)
     if k == 18:
-        sel = (it // 20) % 3
+        sel = (it // 20) % 5
+        if sel == 4:
+            return 'two-raises', gen_two_raises_function(rnd)
+        if sel == 3:
+            return 'global-in-loop', gen_global_in_loop_function(rnd)
         if sel == 0:
             return 'paramless', gen_paramless_function(rnd)
         if sel == 1:
